@@ -244,6 +244,11 @@ func theHeader() *jwsProtectedHeader { return headerPtr }
 
 var extrasMax int // set by a harness to lower the bound
 
+// numbersModel: json.Unmarshal into interface{} yields float64 for every JSON number; whether the number written in the
+// signed text IS that float64 exactly (12345678901234567890 is not) is a fact about the text, arbitrary per member.
+var numbersModel bool
+var extNumExact []bool
+
 func setupExtras() {
 	if extKeys != nil {
 		return
@@ -262,6 +267,7 @@ func setupExtras() {
 		}
 		extKeys = append(extKeys, k)
 		extVal = append(extVal, rt.Havoc[any]("extra"+string(rune('0'+i))+".value"))
+		extNumExact = append(extNumExact, rt.Bool("extra"+string(rune('0'+i))+".number.exact"))
 	}
 	extFld = make([]fld, n)
 }
